@@ -406,6 +406,8 @@ struct Shared<K: SimKey> {
     hist: StdMutex<Vec<HEv>>,
     failure: StdMutex<Option<Failure>>,
     live_handles: StdMutex<i32>,
+    /// num_ops_per_wal the directory was created with (None until the first open of a fresh one)
+    created_n: StdMutex<Option<u64>>,
     /// an operation itself failed or panicked (C07 speaks of error-free programs only)
     op_errors: std::sync::atomic::AtomicBool,
     prop: String,
@@ -625,10 +627,14 @@ fn exec_cop<K: SimKey>(sh: &Shared<K>, cas: &Cas<K>, stats: Option<&OrphanStats<
 }
 
 /// C11 task body: race for the directory
-fn exec_open_hold<K: SimKey>(sh: &Shared<K>, db: &std::path::Path, wl: &Workload, task: u32, opi: usize, hold: u32, keep_clone: bool, recover: bool) {
-    let label = format!("task {task} op#{opi} open");
+#[allow(clippy::too_many_arguments)]
+fn exec_open_hold<K: SimKey>(sh: &Shared<K>, db: &std::path::Path, wl: &Workload, task: u32, opi: usize, hold: u32, keep_clone: bool, recover: bool, n: u64) {
     let mut cfg = wl.cfg.clone();
     cfg.async_mode = false;
+    if n > 0 {
+        cfg.n = n;
+    }
+    let label = format!("task {task} op#{opi} open(n={})", cfg.n);
     let config = to_config(&cfg);
     let ev_from = with_sim(|s| s.trace.len());
     let r = catch_unwind(AssertUnwindSafe(|| {
@@ -655,8 +661,23 @@ fn exec_open_hold<K: SimKey>(sh: &Shared<K>, db: &std::path::Path, wl: &Workload
                 sh.flag(fail(&["C11"], "loser-modified-files", opi, format!("{label}: failed with AlreadyOpened after issuing mutating calls: {bad:?}")));
             }
         }
-        Ok(Err(e)) => sh.flag(fail(&["C11"], "wrong-error", opi, format!("{label}: failed with {e} instead of AlreadyOpened or success"))),
+        Ok(Err(LibError::Settings(e))) if format!("{e:?}").contains("ValidationFailed") && sh.created_n.lock().unwrap().is_some_and(|c| c != cfg.n) => {
+            // C19: an open with a segment size other than the one the directory was created with is
+            // rejected (when no owner is alive; with a live owner AlreadyOpened comes first)
+        }
+        Ok(Err(e)) => sh.flag(fail(&["C11", "C19"], "wrong-error", opi, format!("{label}: failed with {e} instead of AlreadyOpened or success"))),
         Ok(Ok((cas, stats))) => {
+            {
+                // C19: the first successful open fixes the creation-time segment size
+                let mut c = sh.created_n.lock().unwrap();
+                match *c {
+                    None => *c = Some(cfg.n),
+                    Some(created) if created != cfg.n => {
+                        sh.flag(fail(&["C19"], "wrong-open-accepted", opi, format!("{label}: succeeded although the directory was created with num_ops_per_wal={created}")));
+                    }
+                    _ => {}
+                }
+            }
             {
                 let mut l = sh.live_handles.lock().unwrap();
                 *l += 1;
@@ -931,6 +952,7 @@ fn one_execution<K: SimKey>(case: &Arc<Case>, spec: &Arc<ConcSpec>, pre: &Arc<Pr
         hist: StdMutex::new(Vec::new()),
         failure: StdMutex::new(None),
         live_handles: StdMutex::new(0),
+        created_n: StdMutex::new(if spec.fresh_dir { None } else { Some(wl.cfg.n) }),
         op_errors: std::sync::atomic::AtomicBool::new(false),
         prop: case.property.clone(),
     });
@@ -978,8 +1000,8 @@ fn one_execution<K: SimKey>(case: &Arc<Case>, spec: &Arc<ConcSpec>, pre: &Arc<Pr
             handles.push(shuttle::thread::spawn(move || {
                 let task = ti as u32 + 1;
                 for (oi, op) in ops.iter().enumerate() {
-                    if let COp::OpenHold { hold, keep_clone, recover } = op {
-                        exec_open_hold(&sh, &db, &wl2, task, oi, *hold, *keep_clone, *recover);
+                    if let COp::OpenHold { hold, keep_clone, recover, n } = op {
+                        exec_open_hold(&sh, &db, &wl2, task, oi, *hold, *keep_clone, *recover, *n);
                     }
                 }
             }));
@@ -987,6 +1009,22 @@ fn one_execution<K: SimKey>(case: &Arc<Case>, spec: &Arc<ConcSpec>, pre: &Arc<Pr
         for h in handles {
             if h.join().is_err() {
                 sh.flag(fail(&["C15", "C11"], "task-died", 0, "a task terminated by panic outside an operation".into()));
+            }
+        }
+        // C19: the value the directory was created (and written) with is the only one accepted
+        let created = *sh.created_n.lock().unwrap();
+        if let Some(created) = created {
+            cfg.n = created;
+            let mut wrong = cfg.clone();
+            wrong.n = created + 1;
+            match catch_unwind(AssertUnwindSafe(|| interpose::enter(|| Cas::<K>::open(&db, to_config(&wrong))))) {
+                Ok(Err(LibError::Settings(e))) if format!("{e:?}").contains("ValidationFailed") => {}
+                Ok(Ok(c)) => {
+                    interpose::enter(|| drop(c));
+                    sh.flag(fail(&["C19"], "wrong-open-accepted", 0, format!("after the racing opens an open with num_ops_per_wal={} is accepted although the directory was created with {created}", created + 1)));
+                }
+                Ok(Err(e)) => sh.flag(fail(&["C19"], "wrong-error", 0, format!("open with a wrong segment size failed with {e} instead of the validation error"))),
+                Err(p) => sh.flag(fail(&["C19"], "panic", 0, format!("open with a wrong segment size panicked: {}", panic_msg(p)))),
             }
         }
         // after the last owner is gone the next open succeeds and shows the pre-state
@@ -999,7 +1037,7 @@ fn one_execution<K: SimKey>(case: &Arc<Case>, spec: &Arc<ConcSpec>, pre: &Arc<Pr
                 }
                 interpose::enter(|| drop(cas));
             }
-            Ok(Err(e)) => sh.flag(fail(&["C11"], "reopen-after-drop-failed", 0, format!("open after every handle was dropped failed: {e}"))),
+            Ok(Err(e)) => sh.flag(fail(&["C11", "C19"], "reopen-after-drop-failed", 0, format!("open after every handle was dropped, with the segment size the directory was created with ({}), failed: {e}", cfg.n))),
             Err(p) => sh.flag(fail(&["C11"], "panic", 0, format!("open after every handle was dropped panicked: {}", panic_msg(p)))),
         }
     }
